@@ -83,14 +83,24 @@ fn param_conversion(
                 let param_ident_str = format!("arg{}", index);
                 let orig_type = in_ty.to_syn();
                 let param_converted_type = param_ty(in_ty);
-                if let Some(conversion) = param_conversion(
+                let param_ident = Ident::new(&param_ident_str, Span::call_site());
+                if let (ast::TypeName::Option(inner, StdlibOrDiplomat::Stdlib), false) =
+                    (&**in_ty, in_ty.is_ffi_safe())
+                {
+                    // Callback arguments travel from Rust to the foreign side: Option<T> needs to become
+                    // the FFI-safe DiplomatOption<T>, the opposite of what is done for method parameters
+                    let inner_ty = inner.ffi_safe_version().to_syn();
+                    all_params_conversion.push(quote! {
+                        let #param_ident: Option<#inner_ty> = #param_ident.map(|v| v.into());
+                        let #param_ident: #param_converted_type = #param_ident.into();
+                    });
+                } else if let Some(conversion) = param_conversion(
                     &ast::Ident::from(param_ident_str.clone()),
                     in_ty,
                     Some(&param_converted_type),
                 ) {
                     all_params_conversion.push(conversion);
                 }
-                let param_ident = Ident::new(&param_ident_str, Span::call_site());
                 cb_arg_type_list.push(param_converted_type);
                 cb_params_and_types_list.push(quote!(#param_ident: #orig_type));
                 cb_param_list.push(param_ident);
